@@ -200,3 +200,24 @@ BINARY_LEFT_NUMBER_OK = {name for name, forms, ok in BINARY if forms and ok}
 # uninterpreted function of its opcode and input values)
 RING_UNARY = {'neg'}
 RING_BINARY = {'+', '-', '*', '/'}
+
+# Operator opcodes that are NOT functions of their inputs: the server's unit
+# draws from the synth's random generator on every sample / control period
+# (UnaryOpUGens.cpp: rand, rand2, linrand, bilinrand, sum3rand, coin;
+# BinaryOpUGens.cpp: rrand, exprand - "these are stateful", the operator help
+# lists them under "random operators").  Every such unit a graph function
+# creates is a generator of its own: two of them over the same operand are two
+# independent signals.  All other opcodes are stateless functions of the inputs.
+STATEFUL_UNARY = ('rand', 'rand2', 'linrand', 'bilinrand', 'sum3rand', 'coin')
+STATEFUL_BINARY = ('rrand', 'exprand')
+STATEFUL_UNARY_OPCODES = frozenset(UNARY_OPCODE[n] for n in STATEFUL_UNARY)
+STATEFUL_BINARY_OPCODES = frozenset(BINARY_OPCODE[n] for n in STATEFUL_BINARY)
+
+
+def is_stateful_op(cls, special):
+    """UnaryOpUGen / BinaryOpUGen unit whose opcode is a random generator"""
+    if cls == 'UnaryOpUGen':
+        return special in STATEFUL_UNARY_OPCODES
+    if cls == 'BinaryOpUGen':
+        return special in STATEFUL_BINARY_OPCODES
+    return False
